@@ -67,6 +67,19 @@ func (e *seqEngine) Run(a *agg, spec *PropSpec, seed uint64) {
 		if sc.Cfg.bounded() && rng.Intn(2) == 0 {
 			pl.TMax = uint64(1 + rng.Intn(int(sc.Cfg.Max)*2+2))
 		}
+		if (sc.Cfg.withExpiry() || sc.Cfg.withRefresh()) && rng.Intn(4) == 0 {
+			// a slow stream: the clock moves with every Read of the load
+			d := sc.Cfg.ExpD
+			if d <= 0 {
+				d = sc.Cfg.RefD
+			}
+			switch rng.Intn(3) {
+			case 0:
+				pl.ReadAdv = 1 + int64(rng.Intn(1000))
+			default:
+				pl.ReadAdv = d/int64(1+rng.Intn(60)) + 1
+			}
+		}
 		sc.SaveLoad = pl
 	}
 	rng2 := simrt.NewRng(seed, 11)
